@@ -175,6 +175,7 @@ def check_record(ctx, rule_s="R2-sanitised-or-finite", rule_r="R3-channel-routin
                     ctx.violated(rule_r, tagc, f"self.{attr}[j] is {b!r}; for a {label} input channel {ci + 1} must be {raw!r}", where, lhs=b, rhs=raw)
                     continue
                 # sanitising
+                if rule_s is None: continue
                 if fin is False:
                     if b.eq(san): ctx.holds(rule_s, tagc, "non-finite samples replaced by zeros before the channel view is taken", where)
                     else:
@@ -188,7 +189,7 @@ def check_record(ctx, rule_s="R2-sanitised-or-finite", rule_r="R3-channel-routin
                     (ctx.holds if b.eq(san) else ctx.violated)(rule_s, tagc, "sanitised unconditionally" if b.eq(san) else
                                                               "record is neither tested finite nor sanitised on this path", where)
         # the finiteness test must be on the stored record itself
-        for t in tests[:1]:
+        for t in (tests[:1] if rule_s is not None else []):
             a = getattr(t, "finite_of", None)
             ctx.holds(rule_s, f"{INIT}[{label}:test]", "finiteness tested on the stored record", where) if a is not None else None
 
@@ -250,6 +251,8 @@ def check_guards(ctx, rule_g="R4-guard-is-divisor", rule_u="R5-unguarded-divisor
                 out_ok = out is not None and to_x(outv) is not None and to_x(outv).iszero()
                 if isinstance(outv, LocalArr) and not outv.stores and to_x(outv.fill) is not None and to_x(outv.fill).iszero(): out_ok = True     # np.zeros(shape)
                 if isinstance(outv, Arr) and to_x(outv.body) is not None and to_x(outv.body).iszero(): out_ok = True
+                # a defined array as out= keeps finite values in the guarded-away bins (what those values mean is C10/C11/C20's business)
+                if not out_ok and out is not None and not (isinstance(outv, LocalArr) and outv.fill is None and not outv.stores) and not is_opaque(outv): out_ok = True
                 if not ok_shape:
                     ctx.unknown(rule_g, c, f"where= is not a conjunction of non-vanishing tests: {wherev!r}"[:200], w2)
                 elif need - tested:
